@@ -35,7 +35,11 @@ def gen(rng, tier, run):
     zero_mode = rng.choice(['none', 'some', 'some', 'many', 'all'])
     pz = {'none': 0.0, 'some': 0.15, 'many': 0.6, 'all': 1.0}[zero_mode]
 
+    tiny = rng.random() < 0.12      # strictly positive errors whose squares underflow
+
     def err():
+        if tiny and rng.random() < 0.4:
+            return rng.choice([1e-170, 5e-324, 1e-200, 2.2250738585072014e-308, 1.4e-162])
         return 0.0 if rng.random() < pz else rng.choice([rng.uniform(0.01, 5.0), float(rng.randrange(1, 5))])
 
     ref = {'v': [rng.choice([rng.uniform(-100, 100), float(rng.randrange(-5, 6))]) for _ in range(size)],
@@ -61,9 +65,19 @@ def gen(rng, tier, run):
             tgt[key][rng.randrange(size)] = val
     perm = list(range(size))
     rng.shuffle(perm)
+    # integer-valued datasets (legal input: Dataset accepts integer arrays)
+    if rng.random() < 0.15:
+        for d in [ref] + dss:
+            if rng.random() < 0.6 and all(math.isfinite(x) for x in d['v'] + d['e']):
+                d['v'] = [float(round(x)) for x in d['v']]
+                d['e'] = [float(round(x)) for x in d['e']]
+                d['int'] = True
 
     def enc(d):
-        return {'v': [bits(x) for x in d['v']], 'e': [bits(x) for x in d['e']]}
+        out = {'v': [bits(x) for x in d['v']], 'e': [bits(x) for x in d['e']]}
+        if d.get('int'):
+            out['int'] = True
+        return out
     return {'shape': shape, 'ref': enc(ref), 'dss': [enc(d) for d in dss], 'alpha': alpha, 'ignore': ignore, 'perm': perm}
 
 
@@ -75,7 +89,7 @@ def shrink(case):
     if size > 1:
         for i in range(size):
             def cut(d):
-                return {'v': d['v'][:i] + d['v'][i + 1:], 'e': d['e'][:i] + d['e'][i + 1:]}
+                return dict(d, v=d['v'][:i] + d['v'][i + 1:], e=d['e'][:i] + d['e'][i + 1:])
             yield dict(case, shape=[size - 1], ref=cut(case['ref']), dss=[cut(d) for d in case['dss']],
                        perm=list(range(size - 1)))
 
@@ -88,9 +102,10 @@ def mkds(d, shape, perm=None):
     if perm is not None:
         v = [v[i] for i in perm]
         e = [e[i] for i in perm]
+    dtype = int if d.get('int') else float
     if shape:
-        return Dataset(np.array(v, dtype=float).reshape(shape), np.array(e, dtype=float).reshape(shape))
-    return Dataset(np.float64(v[0]), np.float64(e[0]))
+        return Dataset(np.array(v, dtype=dtype).reshape(shape), np.array(e, dtype=dtype).reshape(shape))
+    return Dataset(np.int64(v[0]), np.int64(e[0])) if d.get('int') else Dataset(np.float64(v[0]), np.float64(e[0]))
 
 
 def evaluate(ref, dss, alpha, ignore):
